@@ -450,18 +450,32 @@ func TestP3Drift(t *testing.T) {
 	rec := ev.New("C20", "drift")
 	defer rec.Finish(t)
 	maxSegs := ev.Total(2000, 10000)
-	rec.Rule(fmt.Sprintf("paths of 1..%d segments (random walk with fractional steps of 1-3 decimals or k/q; moves, h/v/general lines, rrcurveto/hvcurveto/vhcurveto shapes, closepaths); every absolute coordinate decoded by the independent decoder (no string-length limit) and, when the charstring is <= 65,000 bytes, by type1.Read must stay within 1/214 (+2e-6 for the encoder's axis snapping) of the requested coordinate, whatever the path length. Non-trivial: path of >= 100 segments with non-integer coordinates; distinct by path.", maxSegs))
+	rec.Rule(fmt.Sprintf("paths of 1..%d segments (random walk with fractional steps of 1-3 decimals, k/q, or tiny steps of 0.0005-0.5 units incl. steps of exactly 0 in one axis; a third of the paths starts 5,000-200,000 units from the origin; moves, h/v/general lines, rrcurveto/hvcurveto/vhcurveto shapes, closepaths); every absolute coordinate decoded by the independent decoder (no string-length limit) and, when the charstring is <= 65,000 bytes, by type1.Read must stay within 1/214 (+2e-6 for the encoder's axis snapping) of the requested coordinate, whatever the path length. Non-trivial: path of >= 100 segments with non-integer coordinates; distinct by path.", maxSegs))
 	ev.SetupRapid(1500, 48000)
 	rapid.Check(t, func(t *rapid.T) {
 		n := rapid.IntRange(1, maxSegs).Draw(t, "segments")
 		if rapid.IntRange(0, 3).Draw(t, "short") == 0 {
 			n = rapid.IntRange(1, 40).Draw(t, "shortn")
 		}
-		mode := rapid.IntRange(0, 2).Draw(t, "stepmode")
+		mode := rapid.IntRange(0, 4).Draw(t, "stepmode")
 		seed := rapid.Uint64().Draw(t, "walkseed")
 		lcg := &t1ref.LCG{S: seed}
+		// a third of the paths lies far from the origin (coordinates of
+		// 5,000 - 200,000 units): small steps there are small relative to the
+		// coordinates, not to the 1/214 bound
+		far := 0.0
+		if rapid.IntRange(0, 2).Draw(t, "far") == 0 {
+			far = rapid.SampledFrom([]float64{5000, -20000, 50000, 200000, -200000}).Draw(t, "faroffset")
+		}
 		step := func() float64 {
 			switch mode {
+			case 3: // tiny steps, +-0.5 in units of 0.0005
+				return float64(lcg.Intn(2001)-1000) / 2000
+			case 4: // mostly no movement in this axis, else tiny
+				if lcg.Intn(3) > 0 {
+					return 0
+				}
+				return float64(lcg.Intn(401)-200) / 4000
 			case 0:
 				return float64(lcg.Intn(200001)-100000) / 1000
 			case 1:
@@ -471,7 +485,7 @@ func TestP3Drift(t *testing.T) {
 			}
 		}
 		g := &type1.Glyph{}
-		x, y := step(), step()
+		x, y := far+step(), far/2+step()
 		g.MoveTo(x, y)
 		for i := 1; i < n; i++ {
 			switch lcg.Intn(9) {
